@@ -31,12 +31,12 @@ def idealEnv : Env :=
 
 theorem idealEnv_DC : DC idealEnv := by
   refine ⟨?_, ?_, ?_⟩
-  · intro loc peer m h r
+  · intro loc peer m _ _ h r
     simp only [idealEnv, DecodeRes.ok.injEq] at h
     subst h
     simp [List.mem_filter]
-  · intro loc peer _; exact ⟨_, rfl⟩
-  · intro loc peer h; simp [idealEnv] at h
+  · intro loc peer _ _ _; exact ⟨_, rfl⟩
+  · intro loc peer _ _ h; simp [idealEnv] at h
 
 theorem idealEnv_OrderOK : OrderOK idealEnv := by
   refine ⟨fun l => sortBy_perm clockLt l, fun l => ?_⟩
